@@ -3,7 +3,7 @@ namespace LokiModel.C13.Generated
 /-- return statements of `Variable.__new__` in source order -/
 def tierReturns : List String := ["ProcedureSymbol", "DerivedTypeSymbol", "Array", "Scalar", "DeferredTypeSymbol"]
 /-- the test under which `Variable.__new__` drops the `dimensions` keyword (ast.unparse) -/
-def dimsPopTest : String := "'dimensions' in kwargs and (not kwargs['dimensions'])"
+def dimsPopTest : String := "'dimensions' in kwargs and kwargs['dimensions'] is None"
 /-- members of the `BasicType` int-enum with their values (value 0 is falsy) -/
 def basicTypes : List (String × Nat) := [("DEFERRED", 0), ("LOGICAL", 1), ("INTEGER", 2), ("REAL", 3), ("CHARACTER", 4), ("COMPLEX", 5)]
 /-- `bool(x)` of a sample object of each class used in a truthiness test of the anchored code -/
